@@ -785,6 +785,11 @@ impl Program {
                 debug!("{:?} is not assigned", bubble_signal);
                 defaulted_wires.insert(bubble_signal.clone());
             }
+            for special in &[&stall_signal, &bubble_signal] {
+                if let Some(span) = wire_decl_spans.get(special.as_str()) {
+                    errors.push(Error::RedeclaredWire((*special).clone(), decl.name_span, *span));
+                }
+            }
             wire_to_type.insert(stall_signal.clone(), WireType::RegisterBankSpecial);
             wire_to_type.insert(bubble_signal.clone(), WireType::RegisterBankSpecial);
             for register in &decl.registers {
@@ -799,6 +804,12 @@ impl Program {
                 wire_to_type.insert(in_name.clone(), WireType::RegisterBankInput);
                 wire_to_type.insert(out_name.clone(), WireType::RegisterBankOutput);
                 let mut found_error = false;
+                for signal in &[&in_name, &out_name] {
+                    if let Some(span) = wire_decl_spans.get(signal.as_str()) {
+                        found_error = true;
+                        errors.push(Error::RedeclaredWire((*signal).clone(), register.span, *span));
+                    }
+                }
                 // FIXME: redundant with code in resolve_constants()
                 for referenced in register.default.referenced_wires() {
                     if wires.contains_key(referenced) && !constants.contains_key(referenced) {
